@@ -28,6 +28,13 @@ theorem at_top_eq (h : HState) :
   unfold HState.atTop Extracted.resetAtTop
   cases h.finished <;> cases h.failure <;> simp
 
+/-- `_detect_causes`: when an event resets idling (`reset=` of the spawning cause; `seen` defaults to `new`) -/
+theorem reset_cond_eq (a : ResetAtoms) : Extracted.resetCond a = resetCond a := rfl
+
+theorem resets_idle_eq (lastHandled seen : Option Nat) (new : Nat) :
+    resetsIdle lastHandled seen new =
+      Extracted.resetCond { diffLastHandled := lastHandled != some new, diffSeen := seen.getD new != new } := rfl
+
 /-- the idle gate's loop condition and sleep argument -/
 theorem idle_cond_eq (a : GateAtoms) : Extracted.idleCond a = idleCond a := rfl
 theorem idle_delay_eq (a : GateAtoms) : Extracted.idleDelay a = idleDelay a := rfl
